@@ -62,14 +62,15 @@ parser! {
 
 		pub rule param(s: &ParserSettings) -> ExprParam = destruct:destruct(s) expr:(_ "=" _ expr:expr(s){expr})? { ExprParam { destruct, default: expr.map(Rc::new) } }
 		pub rule params(s: &ParserSettings) -> ExprParams
-			= params:param(s) ** comma() comma()? { ExprParams::new(params) }
+			= params:param(s) ++ comma() comma()? { ExprParams::new(params) }
 			/ { ExprParams::new(Vec::new()) }
 
 		pub rule arg(s: &ParserSettings) -> (Option<IStr>, Rc<Expr>)
 			= name:(quiet! { (s:id() _ "=" !['='] _ {s})? } / expected!("<argument name>")) expr:expr(s) {(name, Rc::new(expr))}
 
 		pub rule args(s: &ParserSettings) -> ArgsDesc
-			= args:arg(s)**comma() comma()? {?
+			= args:(a:arg(s)++comma() comma()? {a})? {?
+				let args = args.unwrap_or_default();
 				let unnamed_count = args.iter().take_while(|(n, _)| n.is_none()).count();
 				let mut unnamed = Vec::with_capacity(unnamed_count);
 				let mut named = Vec::with_capacity(args.len() - unnamed_count);
@@ -202,7 +203,8 @@ parser! {
 			/ assertion:assertion(s) {Member::AssertStmt(assertion)}
 			/ field:field(s) {Member::Field(field)}
 		pub rule objinside(s: &ParserSettings) -> ObjBody
-			=  members:(member(s) ** comma()) comma()? _ compspecs:compspecs(s)? {?
+			=  members:(m:(member(s) ++ comma()) comma()? {m})? _ compspecs:compspecs(s)? {?
+				let members = members.unwrap_or_default();
 				Ok(if let Some(compspecs) = compspecs {
 					let mut locals = Vec::new();
 					let mut field = None;
@@ -252,13 +254,14 @@ parser! {
 				Ok(specs)
 			}
 		pub rule local_expr(s: &ParserSettings) -> Expr
-			= keyword("local") _ binds:bind(s) ** comma() (_ ",")? _ ";" _ expr:expr(s) { Expr::LocalExpr(binds, Box::new(expr)) }
+			= keyword("local") _ binds:bind(s) ++ comma() (_ ",")? _ ";" _ expr:expr(s) { Expr::LocalExpr(binds, Box::new(expr)) }
 		pub rule string_expr(s: &ParserSettings) -> Expr
 			= s:string() {Expr::Str(s.into())}
 		pub rule obj_expr(s: &ParserSettings) -> Expr
 			= "{" _ body:objinside(s) _ "}" {Expr::Obj(body)}
 		pub rule array_expr(s: &ParserSettings) -> Expr
-			= "[" _ elems:(expr(s) ** comma()) _ comma()? "]" {Expr::Arr(Rc::new(elems))}
+			= "[" _ "]" {Expr::Arr(Rc::new(Vec::new()))}
+			/ "[" _ elems:(expr(s) ++ comma()) _ comma()? "]" {Expr::Arr(Rc::new(elems))}
 		pub rule array_comp_expr(s: &ParserSettings) -> Expr
 			= "[" _ expr:expr(s) _ comma()? _ specs:(r: compspecs(s) _ {r}) "]" {
 				Expr::ArrComp(Rc::new(expr), specs)
